@@ -3,6 +3,7 @@ import PydjinniModel.Drv.SysJson
 Driver handlers for property C10.
 
 * `c10.sort` — the two sort pipelines of the templates (`| sort`, `| sort(case_sensitive=true) | sort`) on a list of strings
+* `c10.refusal` — configured targets (registry order) and the refusal of an incompletely configured `generate` section
 * `c10.run`  — one API object driven along a history of parse / generate / report calls: per call the files written
                (path, content identity) and whether they equal what a fresh process writes for the same
                (configuration, program, target)
@@ -92,9 +93,22 @@ def run (req : Json) : Except String Json := do
   pure (Json.mkObj [("calls", Json.arr out.toArray),
     ("parsed_idl", pathsJ rep.idl), ("parsed_ext", pathsJ rep.ext)])
 
+/-- `c10.refusal`: the keys present in the `generate` section (any order) → the targets `parse` configures, in order,
+    and the (target, generator) of the "Missing configuration" refusal, if any -/
+def refusalOp (req : Json) : Except String Json := do
+  let keys ← getStrs req "keys"
+  let ts := configuredTargets T.all keys
+  let has (g : G) : Bool := keys.contains g.key
+  let r := refusal has ts
+  pure (Json.mkObj [("targets", strsJ (ts.map T.key)),
+    ("refused", match r with
+      | some (t, g) => Json.mkObj [("target", t.key), ("generator", g.key)]
+      | none => Json.null)])
+
 def handle (op : String) (req : Json) : Except String Json :=
   match op with
   | "c10.sort" => sort req
+  | "c10.refusal" => refusalOp req
   | "c10.run" => run req
   | _ => throw s!"unknown op {op}"
 
